@@ -54,6 +54,7 @@ def _nontrivial(status, feats, stats):
 
 
 _run, _plan, _replay, _shrink = P.make(PID, check_program, _nontrivial)
+PROG_BUILD = _run.build
 
 SUPPORTED_STMTS = (ast.FunctionDef, ast.Assign, ast.AugAssign, ast.Expr, ast.Return, ast.Pass, ast.Break, ast.Continue, ast.If, ast.While, ast.For)
 
@@ -119,7 +120,7 @@ def run(spec):
 
 
 def plan(tier, seed):
-    specs = _plan(tier, seed)
+    specs = _plan(tier, seed, fuzz_mod=__name__)
     if tier == "quick":
         specs += [("corpus", s, 16, 40) for s in range(16)]
     else:
